@@ -43,10 +43,10 @@ type elem struct {
 	ActVar  int    `json:"av,omitempty"`   // spelling variant of the action line
 	Idx     string `json:"idx,omitempty"`  // decoded index name the action addresses ("" = none)
 	IdxKind string `json:"ik,omitempty"`   // plain none nonstring kibana dotdot long escaped
-	Doc     string `json:"doc,omitempty"`  // "" (no document line) valid nested actionkey spaced big nearlimit oversize invalid nonobj empty
+	Doc     string `json:"doc,omitempty"`  // "" (no document line) valid nested actionkey spaced bare nullonly big nearlimit oversize invalid nonobj empty
 	DocVar  int    `json:"dv,omitempty"`   // spelling variant of the document line
 	Size    int    `json:"size,omitempty"` // exact length in bytes of a big/nearlimit/oversize document line
-	Vid     int64  `json:"vid,omitempty"`  // unique id carried by the document (first key), 0 = none
+	Vid     int64  `json:"vid,omitempty"`  // unique id carried by the document (first key), 0 = none; bare/nullonly documents do not carry it (only their timestamp BaseTs+Vid, if any)
 	NoTs    bool   `json:"nots,omitempty"` // the document carries no timestamp (arrival time)
 }
 
@@ -217,6 +217,40 @@ func (e *elem) docLine() string {
 		default:
 			return `{ "_vid":` + v + e.tsPart() + ` }` + "\t"
 		}
+	case "bare":
+		// a document without any stored field: nothing but empty containers and / or the timestamp key.
+		// It carries no _vid; with a timestamp it is identified by that (unique in the request).
+		ts := strings.TrimPrefix(e.tsPart(), ",")
+		switch e.DocVar % 8 {
+		case 0, 6:
+			return joinObject(ts)
+		case 1:
+			return joinObject(ts, `"tags":[]`)
+		case 2:
+			return joinObject(`"meta":{}`, ts)
+		case 3:
+			return joinObject(ts, `"o":{},"l":[]`)
+		case 4:
+			return joinObject(`"e":{"f":{}},"g":[[],{}]`, ts)
+		case 5:
+			if ts == "" {
+				return `{ }`
+			}
+			return `{ ` + ts + ` }`
+		default:
+			return joinObject(`"a":[{}]`, ts)
+		}
+	case "nullonly":
+		// every value is null: the columns exist but hold no value; no _vid either
+		ts := strings.TrimPrefix(e.tsPart(), ",")
+		switch e.DocVar % 3 {
+		case 0:
+			return joinObject(`"a":null`, ts)
+		case 1:
+			return joinObject(ts, `"n":null,"m":{"k":null}`)
+		default:
+			return joinObject(`"l":[null]`, ts)
+		}
 	case "big", "nearlimit", "oversize":
 		pre := head + e.tsPart() + `,"pad":"`
 		post := `"}`
@@ -248,6 +282,31 @@ func (e *elem) docLine() string {
 	}
 	return ""
 }
+
+// joinObject writes a JSON object from the non-empty member texts.
+func joinObject(members ...string) string {
+	var parts []string
+	for _, m := range members {
+		if m != "" {
+			parts = append(parts, m)
+		}
+	}
+	return "{" + strings.Join(parts, ",") + "}"
+}
+
+// anonDoc: the document line is a well-formed object that carries no _vid (bare, nullonly).
+func (e *elem) anonDoc() bool { return e.Doc == "bare" || e.Doc == "nullonly" }
+
+// anonTs is the timestamp an anonDoc is recognised by, 0 if it carries none (arrival time is stored).
+func (e *elem) anonTs() uint64 {
+	if !e.anonDoc() || e.NoTs {
+		return 0
+	}
+	return gen.BaseTs + uint64(e.Vid)
+}
+
+// idTs: the timestamp lies in the range the generated documents use (arrival times are years later).
+func idTs(ts uint64) bool { return ts >= gen.BaseTs && ts < gen.BaseTs+100_000_000 }
 
 // fillerElems expands Filler into generated elements: mostly `delete` actions (one failed item each, no
 // document line), every 40th a valid index action with a small document for index c15fill.
@@ -320,7 +379,7 @@ func (e *elem) expectation() int {
 	switch e.Doc {
 	case "", "empty":
 		return expMustFail // no document line, or an empty one
-	case "valid", "nested", "actionkey", "spaced", "big":
+	case "valid", "nested", "actionkey", "spaced", "big", "bare", "nullonly":
 		if e.IdxKind == "plain" || e.IdxKind == "escaped" {
 			return expMustOK
 		}
@@ -371,6 +430,20 @@ type observation struct {
 	Global   map[int64]int            // _vid → number of records found by `*` over index `*`
 	Anon     int                      // records without an integer _vid
 	PerIndex map[string]map[int64]int // index → _vid → count
+	// records without an integer _vid, by timestamp: `*` over index `*`, and per addressed index
+	GlobalAnon   map[uint64]int
+	PerIndexAnon map[string]map[uint64]int
+}
+
+// arrivalAnon counts the _vid-less records whose timestamp is not one a generated document carries.
+func arrivalAnon(m map[uint64]int) int {
+	n := 0
+	for ts, c := range m {
+		if !idTs(ts) {
+			n += c
+		}
+	}
+	return n
 }
 
 func shorten(s string, n int) string {
@@ -436,18 +509,20 @@ func parseBulkResponse(raw []byte, rr *routeResult) error {
 
 const searchEnd = 4102444800000 // 2100-01-01, ms
 
-func vidCounts(c *sut.Client, index string, size int) (map[int64]int, int, error) {
+func vidCounts(c *sut.Client, index string, size int) (map[int64]int, map[uint64]int, error) {
 	sr, err := lq.Search(c, sut.Query{Index: index, Text: "*", Start: 1, End: searchEnd, Size: size})
 	if err != nil {
-		return nil, 0, fmt.Errorf("index %q: %w", shorten(index, 40), err)
+		return nil, nil, fmt.Errorf("index %q: %w", shorten(index, 40), err)
 	}
 	out := map[int64]int{}
-	anon := 0
+	anon := map[uint64]int{}
 	for _, r := range sr.Records {
 		if v, ok := r["_vid"].Int(); ok {
 			out[v]++
 		} else {
-			anon++
+			// a record without _vid is told apart by its timestamp (0 = none reported)
+			ts, _ := r["timestamp"].Int()
+			anon[uint64(ts)]++
 		}
 	}
 	return out, anon, nil
@@ -455,7 +530,7 @@ func vidCounts(c *sut.Client, index string, size int) (map[int64]int, int, error
 
 // runRequest posts the body in a fresh worker, flushes and reads back what is searchable.
 func runRequest(via string, body []byte, indexes []string, nDocs int) (*observation, error) {
-	obs := &observation{PerIndex: map[string]map[int64]int{}}
+	obs := &observation{PerIndex: map[string]map[int64]int{}, PerIndexAnon: map[string]map[uint64]int{}}
 	err := pt.WithWorker(sut.Options{}, func(c *sut.Client) error {
 		obs.Route.Via = via
 		switch via {
@@ -489,15 +564,18 @@ func runRequest(via string, body []byte, indexes []string, nDocs int) (*observat
 		}
 		size := nDocs + 50
 		var err error
-		if obs.Global, obs.Anon, err = vidCounts(c, "*", size); err != nil {
+		if obs.Global, obs.GlobalAnon, err = vidCounts(c, "*", size); err != nil {
 			return err
 		}
+		for _, n := range obs.GlobalAnon {
+			obs.Anon += n
+		}
 		for _, ix := range indexes {
-			m, _, err := vidCounts(c, ix, size)
+			m, a, err := vidCounts(c, ix, size)
 			if err != nil {
 				return err
 			}
-			obs.PerIndex[ix] = m
+			obs.PerIndex[ix], obs.PerIndexAnon[ix] = m, a
 		}
 		return nil
 	})
@@ -589,8 +667,15 @@ func popcount(x int) int {
 
 // judge evaluates one reading against the statement. known collects tolerated known findings.
 func judge(els []elem, r reading, obs *observation, known map[string]bool) error {
-	anonAllowed := 0
+	// _vid-less records that carry no generated timestamp (they were stored with the arrival time):
+	// anonFlex   acknowledged elements that may or may not have left such a record (a lenient parser read
+	//            something out of a line that holds no object with a _vid; tolerated known finding)
+	// anonNeed   acknowledged field-less / null-only documents without timestamp: each must have left one,
+	//            anonNeedIdx in the index it addressed, anonAnywhere in an index the request does not fix
+	anonFlex, anonNeed, anonAnywhere := 0, 0, 0
+	anonNeedIdx := map[string]int{}
 	expectedVids := map[int64]bool{}
+	expectedAnonTs := map[uint64]bool{}
 	for i := range els {
 		e := &els[i]
 		st := r.status[i]
@@ -617,40 +702,69 @@ func judge(els []elem, r reading, obs *observation, known map[string]bool) error
 				return fmt.Errorf("element %d (%s) cannot create a document but its item has status 201", i, e.describe())
 			}
 		}
-		hasVid := e.Doc != "" && e.Doc != "empty" && e.Doc != "nonobj" && e.Vid > 0
-		if !hasVid {
-			if created {
-				anonAllowed++
+		kibanaTolerated := strings.Contains(e.Idx, ".kibana") && pt.KnownFindingOpen("C15-kibana-ack-not-stored")
+		if e.anonDoc() && e.anonTs() == 0 {
+			// no _vid, no timestamp: such documents can only be counted
+			if !created {
+				continue
+			}
+			switch {
+			case kibanaTolerated:
+				known["C15-kibana-ack-not-stored"] = true
+				anonFlex++
+			case e.placementKnown():
+				anonNeed++
+				anonNeedIdx[e.Idx]++
+			default:
+				anonNeed++
+				anonAnywhere++
 			}
 			continue
 		}
-		expectedVids[e.Vid] = true
+		hasVid := e.Doc != "" && e.Doc != "empty" && e.Doc != "nonobj" && e.Vid > 0
+		if !hasVid {
+			if created {
+				anonFlex++
+			}
+			continue
+		}
+		// the document is recognised by its _vid or, if it is field-less, by its timestamp
+		what := fmt.Sprintf("_vid=%d", e.Vid)
 		n := obs.Global[e.Vid]
+		perIndex := func(ix string) int { return obs.PerIndex[ix][e.Vid] }
+		if ts := e.anonTs(); ts != 0 {
+			what = fmt.Sprintf("the record without _vid with timestamp=%d", ts)
+			n = obs.GlobalAnon[ts]
+			perIndex = func(ix string) int { return obs.PerIndexAnon[ix][ts] }
+			expectedAnonTs[ts] = true
+		} else {
+			expectedVids[e.Vid] = true
+		}
 		if created {
-			if n == 0 && strings.Contains(e.Idx, ".kibana") && pt.KnownFindingOpen("C15-kibana-ack-not-stored") {
+			if n == 0 && kibanaTolerated {
 				known["C15-kibana-ack-not-stored"] = true
 				continue
 			}
 			if n != 1 {
-				return fmt.Errorf("element %d (%s) was acknowledged with 201 but _vid=%d is searchable %d times after the flush (want exactly once)",
-					i, e.describe(), e.Vid, n)
+				return fmt.Errorf("element %d (%s) was acknowledged with 201 but %s is searchable %d times after the flush (want exactly once)",
+					i, e.describe(), what, n)
 			}
 			if e.placementKnown() {
 				for _, ix := range pt.SortedKeys(obs.PerIndex) {
-					got := obs.PerIndex[ix][e.Vid]
+					got := perIndex(ix)
 					want := 0
 					if ix == e.Idx {
 						want = 1
 					}
 					if got != want {
-						return fmt.Errorf("element %d (%s) was acknowledged with 201 for index %q, but a search of index %q finds _vid=%d %d times (want %d)",
-							i, e.describe(), shorten(e.Idx, 40), shorten(ix, 40), e.Vid, got, want)
+						return fmt.Errorf("element %d (%s) was acknowledged with 201 for index %q, but a search of index %q finds %s %d times (want %d)",
+							i, e.describe(), shorten(e.Idx, 40), shorten(ix, 40), what, got, want)
 					}
 				}
 			}
 		} else if n != 0 {
-			return fmt.Errorf("element %d (%s) was reported as failed (status %s) but _vid=%d is searchable %d times after the flush",
-				i, e.describe(), stText(st), e.Vid, n)
+			return fmt.Errorf("element %d (%s) was reported as failed (status %s) but %s is searchable %d times after the flush",
+				i, e.describe(), stText(st), what, n)
 		}
 	}
 	for _, v := range sortedVids(obs.Global) {
@@ -658,10 +772,33 @@ func judge(els []elem, r reading, obs *observation, known map[string]bool) error
 			return fmt.Errorf("a record with _vid=%d is searchable although no acknowledged document carries it (ghost / partial document)", v)
 		}
 	}
-	if obs.Anon > anonAllowed {
-		return fmt.Errorf("%d records without _vid are searchable, but only %d acknowledged documents carry none", obs.Anon, anonAllowed)
+	for _, ts := range sortedTs(obs.GlobalAnon) {
+		if idTs(ts) && !expectedAnonTs[ts] {
+			return fmt.Errorf("a record without _vid with timestamp=%d is searchable although no field-less document of the request carries that timestamp (partial document)", ts)
+		}
+	}
+	// records stored with the arrival time: as many as acknowledged documents that carry neither _vid nor timestamp
+	if got := arrivalAnon(obs.GlobalAnon); got < anonNeed || got > anonNeed+anonFlex {
+		return fmt.Errorf("%d documents without _vid and without timestamp were acknowledged with 201 (plus %d acknowledged lines that may or may not store a record without _vid), but %d such records are searchable after the flush",
+			anonNeed, anonFlex, got)
+	}
+	for _, ix := range pt.SortedKeys(obs.PerIndexAnon) {
+		got, need := arrivalAnon(obs.PerIndexAnon[ix]), anonNeedIdx[ix]
+		if got < need || got > need+anonAnywhere+anonFlex {
+			return fmt.Errorf("index %q: %d documents without _vid and without timestamp were acknowledged with 201 for it (plus %d acknowledged lines whose record, if any, may lie in any index), but a search of the index finds %d such records after the flush",
+				shorten(ix, 40), need, anonAnywhere+anonFlex, got)
+		}
 	}
 	return nil
+}
+
+func sortedTs(m map[uint64]int) []uint64 {
+	out := make([]uint64, 0, len(m))
+	for v := range m {
+		out = append(out, v)
+	}
+	sort.Slice(out, func(i, j int) bool { return out[i] < out[j] })
+	return out
 }
 
 func sortedVids(m map[int64]int) []int64 {
@@ -697,7 +834,13 @@ func (e *elem) describe() string {
 		if e.Size > 0 {
 			s += fmt.Sprintf("(%d bytes)", e.Size)
 		}
-		if e.Vid > 0 {
+		if e.anonDoc() {
+			if ts := e.anonTs(); ts != 0 {
+				s += fmt.Sprintf(" no _vid, timestamp=%d", ts)
+			} else {
+				s += " no _vid, no timestamp"
+			}
+		} else if e.Vid > 0 {
 			s += fmt.Sprintf(" _vid=%d", e.Vid)
 		}
 	}
@@ -860,6 +1003,7 @@ func classify(cs *c15Case, els []elem, obs *observation, pass []reading, o *pt.O
 	if len(idx) >= 2 {
 		o.Class("multi_index")
 	}
+	bareIndex := classifyFieldless(els, pass, o)
 	last := &els[len(els)-1]
 	lastLineIsAction := last.Act != "blank" && last.Doc == ""
 	if lastLineIsAction {
@@ -890,12 +1034,74 @@ func classify(cs *c15Case, els []elem, obs *observation, pass []reading, o *pt.O
 	for _, st := range obs.Route.Statuses {
 		o.Class("status_" + strconv.Itoa(st))
 	}
-	if (acc > 0 && rej > 0) || lastLineIsAction {
+	if (acc > 0 && rej > 0) || lastLineIsAction || bareIndex {
 		o.NonTrivial()
 	}
 	o.Count("items", int64(len(obs.Route.Statuses)))
 	o.Count("items_201", int64(acc))
 	o.Max("max_items", int64(len(obs.Route.Statuses)))
+}
+
+// classifyFieldless records how the request uses documents without any stored field; it reports whether some
+// index of known placement received nothing but acknowledged field-less documents (under the first passing reading).
+func classifyFieldless(els []elem, pass []reading, o *pt.Obs) bool {
+	if len(pass) == 0 {
+		return false
+	}
+	st := pass[0].status
+	bare, other := map[string]int{}, map[string]int{}
+	for i := range els {
+		e := &els[i]
+		if e.Doc == "bare" && (e.Act == "index" || e.Act == "create") {
+			switch {
+			case e.NoTs:
+				o.Class("fieldless_doc_without_timestamp")
+			case e.DocVar%8 == 0 || e.DocVar%8 == 5 || e.DocVar%8 == 6:
+				o.Class("fieldless_doc_only_timestamp_key")
+			default:
+				o.Class("fieldless_doc_empty_containers_and_timestamp")
+			}
+			if e.NoTs && (e.DocVar%8 == 0 || e.DocVar%8 == 5 || e.DocVar%8 == 6) {
+				o.Class("fieldless_doc_empty_object")
+			}
+		}
+		if st[i] != 201 || !e.placementKnown() || e.IdxKind == "long" {
+			continue
+		}
+		if e.Doc == "bare" {
+			bare[e.Idx]++
+		} else {
+			other[e.Idx]++
+		}
+	}
+	bareOnly, ordinaryOnly, mixed := 0, 0, 0
+	for _, ix := range pt.SortedKeys(bare) {
+		if other[ix] == 0 {
+			bareOnly++
+			if bare[ix] >= 2 {
+				o.Class("index_receives_2plus_fieldless_docs_only")
+			}
+		} else {
+			mixed++
+		}
+	}
+	for _, ix := range pt.SortedKeys(other) {
+		if bare[ix] == 0 {
+			ordinaryOnly++
+		}
+	}
+	if bareOnly > 0 {
+		o.Class("index_receives_only_fieldless_docs")
+		if ordinaryOnly+mixed > 0 {
+			o.Class("index_receives_only_fieldless_docs_next_to_ordinary_index")
+		} else {
+			o.Class("index_receives_only_fieldless_docs_no_other_index_stored")
+		}
+	}
+	if mixed > 0 {
+		o.Class("index_receives_fieldless_and_ordinary_docs")
+	}
+	return bareOnly > 0
 }
 
 func checkC15(cs *c15Case, o *pt.Obs) error {
@@ -1000,6 +1206,10 @@ func checkC15(cs *c15Case, o *pt.Obs) error {
 			if e.Vid > 0 && e.Doc != "" && obs.Global[e.Vid] != tobs.Global[e.Vid] && !strings.Contains(e.Idx, ".kibana") {
 				return fmt.Errorf("a bad element changed what is stored of a neighbour: _vid=%d (%s) is searchable %d times in the full request and %d times when the bad elements %v are left out\nrequest:\n%s",
 					e.Vid, e.describe(), obs.Global[e.Vid], tobs.Global[e.Vid], cs.Remove, describeBody(els, cs))
+			}
+			if ts := e.anonTs(); ts != 0 && obs.GlobalAnon[ts] != tobs.GlobalAnon[ts] && !strings.Contains(e.Idx, ".kibana") {
+				return fmt.Errorf("a bad element changed what is stored of a neighbour: the record without _vid with timestamp=%d (%s) is searchable %d times in the full request and %d times when the bad elements %v are left out\nrequest:\n%s",
+					ts, e.describe(), obs.GlobalAnon[ts], tobs.GlobalAnon[ts], cs.Remove, describeBody(els, cs))
 			}
 		}
 	}
